@@ -4,6 +4,7 @@ go 1.21
 
 require (
 	github.com/fxamacker/cbor/v2 v2.5.0
+	github.com/veraison/go-cose v1.3.0-rc.1
 	github.com/veraison/psatoken v0.0.0
 )
 
@@ -20,7 +21,6 @@ require (
 	github.com/pmezard/go-difflib v1.0.0 // indirect
 	github.com/stretchr/testify v1.8.1 // indirect
 	github.com/veraison/eat v0.0.0-20210331113810-3da8a4dd42ff // indirect
-	github.com/veraison/go-cose v1.3.0-rc.1 // indirect
 	github.com/x448/float16 v0.8.4 // indirect
 	golang.org/x/crypto v0.0.0-20220427172511-eb4f295cb31f // indirect
 	gopkg.in/yaml.v3 v3.0.1 // indirect
